@@ -162,7 +162,9 @@ def run_task(task):
                                inlined=sorted(eng.stats['inlined']),
                                callees=sorted(eng.stats['callee_contracts']),
                                unverified_termination=sorted(eng.unverified_termination),
-                               model_notes=sorted(eng.intr.notes))
+                               model_notes=sorted(eng.intr.notes),
+                               assumed_preconditions=sorted(eng.stats.get(
+                                   'assumed_preconditions', [])))
             def one(i):
                 o = obls[i]
                 r = solve.discharge(axs, o, seed, cross=cross)
